@@ -1057,6 +1057,15 @@ func (c *evalCtx) callExpr(n *ECall) EV {
 			// abstractLen("name", x): an uninterpreted length of x (used for notations whose length loops are not yet under proof)
 			nm := n.Args[0].(*EStr).S
 			a := c.eval(n.Args[1])
+			if len(n.Args) > 2 {
+				// abstractLen("name", x, y, ...): a function of all components of all arguments
+				var ts []*smt.Term
+				ts = append(ts, a.V.Terms...)
+				for _, ax := range n.Args[2:] {
+					ts = append(ts, c.eval(ax).V.Terms...)
+				}
+				return EV{V: Val{Typ: types.Typ[types.Int], Terms: []*smt.Term{cx.App(fmt.Sprintf("abslen%d.%s", len(ts), nm), smt.BV(64), ts...)}}}
+			}
 			return EV{V: Val{Typ: types.Typ[types.Int], Terms: []*smt.Term{cx.App("abslen."+nm, smt.BV(64), a.V.Terms[0])}}}
 		case "fold":
 			return c.foldExpr(n)
